@@ -12,9 +12,9 @@ import vflib
 from vflib import log
 from . import common
 
-FIXED_GROUPS = {"G_flood_fixed", "G_bcast_fixed", "G_udp_fixed", "G_mixed_fixed", "G_c08_fixed", "G_c08_4", "G_c08_tcp"}
+FIXED_GROUPS = {"G_flood_fixed", "G_bcast_fixed", "G_udp_fixed", "G_mixed_fixed", "G_c08_fixed", "G_c08_4", "G_c08_tcp", "G_c08_udp2"}
 PROP_OFFSET = {"C03": 0, "C06": 200, "C08": 400, "C09": 600}
-PORT_BASE = {"G_flood_fixed": 26000, "G_bcast_fixed": 21000, "G_udp_fixed": 22000, "G_mixed_fixed": 23000, "G_c08_fixed": 24000, "G_c08_4": 25000, "G_c08_tcp": 27000}
+PORT_BASE = {"G_flood_fixed": 26000, "G_bcast_fixed": 21000, "G_udp_fixed": 22000, "G_mixed_fixed": 23000, "G_c08_fixed": 24000, "G_c08_4": 25000, "G_c08_tcp": 27000, "G_c08_udp2": 29000}
 
 
 def generate(group, n, seed, outdir):
